@@ -452,6 +452,30 @@ def chain_net(rng) -> dict:
     return net
 
 
+def cycle_net(rng) -> dict:
+    """x0 <-> x1 with v0 = k0*x0 (x0 -> x1) and v1 = k1*x1 (x1 -> x0): the total T = x0 + x1 is conserved, so the
+    steady state x0 = T k1/(k0+k1), x1 = T k0/(k0+k1) DEPENDS on the initial values the run starts from."""
+    dy = [0.5, 1.0, 2.0, 3.0, 4.0, 1.5]
+    return {"vars": {"x0": rng.choice(dy), "x1": rng.choice(dy)}, "pars": {"k0": rng.choice(dy), "k1": rng.choice(dy)},
+            "rxns": [[("k0", 1), ("x0", 1)], [("k1", 1), ("x1", 1)]],
+            "stoich": {0: {"x0": -1.0, "x1": 1.0}, 1: {"x1": -1.0, "x0": 1.0}}, "cycle": True}
+
+
+def cycle_expected(net: dict, y0: dict | None, normalized: bool) -> dict:
+    """{(row, parameter): analytic coefficient} for the conserved two-pool cycle."""
+    k0, k1 = float(net["pars"]["k0"]), float(net["pars"]["k1"])
+    init = dict(net["vars"]) | (y0 or {})
+    T = float(init["x0"]) + float(init["x1"])
+    s = k0 + k1
+    val = {"x0": T * k1 / s, "x1": T * k0 / s, "v0": T * k0 * k1 / s, "v1": T * k0 * k1 / s}
+    sc = {("x0", "k0"): -k0 / s, ("x0", "k1"): k0 / s, ("x1", "k0"): k1 / s, ("x1", "k1"): -k1 / s,
+          ("v0", "k0"): k1 / s, ("v0", "k1"): k0 / s, ("v1", "k0"): k1 / s, ("v1", "k1"): k0 / s}
+    if normalized:
+        return sc
+    kk = {"k0": k0, "k1": k1}
+    return {(r, p): c * val[r] / kk[p] for (r, p), c in sc.items()}
+
+
 def _tables_close(a, b, rtol=1e-9, atol=1e-12) -> bool:
     if [c for c, _ in a] != [c for c, _ in b]:
         return False
@@ -488,6 +512,21 @@ def resp_oracle(case: dict, seq: dict, par: dict | None) -> tuple[str | None, di
             return f"response_coefficients (parallel) raised {par['out'][0]} although the sequential run succeeds", stats
         if not (_tables_close(seq["out"][1], par["out"][1]) and _tables_close(seq["out"][2], par["out"][2])):
             return "response_coefficients: sequential and parallel execution return different coefficients", stats
+    if net.get("cycle"):
+        exp = cycle_expected(net, case["y0"], case["normalized"])
+        _, ctab, ftab, cidx, fidx = seq["out"]
+        if [c for c, _ in ctab] != list(dict.fromkeys(scan)) or cidx != ["x0", "x1"] or fidx != ["v0", "v1"]:
+            return f"result axes wrong: columns {[c for c, _ in ctab]} rows {cidx} / {fidx}", stats
+        for tab, rows in ((ctab, cidx), (ftab, fidx)):
+            for p, cells_ in tab:
+                for r, got in zip(rows, cells_):
+                    stats["cells"] += 1
+                    if got is None:
+                        stats["nan_cells"] += 1
+                    elif abs(got - exp[(r, p)]) > 5e-2 * max(1.0, abs(exp[(r, p)])):
+                        return (f"response coefficient of {r} w.r.t. {p} is {got}, analytic steady-state sensitivity "
+                                f"(started from the given initial values) is {exp[(r, p)]}"), stats
+        return None, stats
     orders = net.get("chain_orders")
     if orders is None:
         return None, stats
@@ -638,7 +677,7 @@ def gen_elast_case(rng, exact: bool) -> dict:
 
 
 def gen_resp_case(rng, exact: bool) -> dict:
-    net = chain_net(rng)
+    net = cycle_net(rng) if rng.random() < 0.35 else chain_net(rng)
     to_scan = None
     r = rng.random()
     if r < 0.4:
